@@ -66,6 +66,14 @@ def gen_case(rng, groups_subset=None, force_enabled=None):
         "mode": rng.choice(["exposure"] * 6 + ["observation-seq", "observation-dask", "calibration"]),
         "nd": rng.random() < 0.3,
     }
+    # flags changed AFTER the pipeline object exists (attribute assignment / run_mode(override_dct=...)):
+    # "enabled" means enabled when the readout step runs
+    toggles = []
+    for g, ms in groups:
+        for i, m in enumerate(ms or []):
+            if rng.random() < 0.15:
+                toggles.append([g, i, m["name"], not m["enabled"], rng.choice(["attr", "override"])])
+    case["toggles"] = toggles
     if case["mode"] != "exposure":
         case["debug"] = False  # debug capture exists for exposure only
         case["construction"] = "python"
@@ -138,8 +146,15 @@ def run_impl(case):
     try:
         mode, det, pipe = build(case)
         mode_kind = case["mode"]
+        overrides = {}
+        for g, i, name, new, route in case.get("toggles", []):
+            if route == "attr":
+                getattr(pipe, g).models[i].enabled = new
+            else:
+                overrides[f"pipeline.{g}.{name}.enabled"] = new
+        okw = {"override_dct": overrides} if overrides else {}
         if mode_kind == "exposure":
-            res = pyx.run(mode, det, pipe, debug=case["debug"])
+            res = pyx.run(mode, det, pipe, debug=case["debug"], **okw)
         elif mode_kind in ("observation-seq", "observation-dask"):
             import dask
             from pyxel.observation import Observation, ParameterValues
@@ -148,9 +163,9 @@ def run_impl(case):
                               readout=mode.readout, with_dask=(mode_kind == "observation-dask"))
             if mode_kind == "observation-dask":
                 with dask.config.set(scheduler="threads", num_workers=3):
-                    res = pyx.run(obs, det, pipe, with_inherited_coords=True).load()
+                    res = pyx.run(obs, det, pipe, with_inherited_coords=True, **okw).load()
             else:
-                res = pyx.run(obs, det, pipe, with_inherited_coords=True)
+                res = pyx.run(obs, det, pipe, with_inherited_coords=True, **okw)
         elif mode_kind == "calibration":
             import os
             import tempfile
@@ -164,7 +179,7 @@ def run_impl(case):
                                              {"key": "detector.characteristics.quantum_efficiency", "values": "_", "boundaries": (0.1, 0.9)}],
                                        result_fit_range=(0, 3, 0, 4), target_fit_range=(0, 3, 0, 4), result_type="pixel",
                                        population_size=8, generations=1)
-            res = pyx.run(cal, det, pipe)
+            res = pyx.run(cal, det, pipe, **okw)
         else:
             raise ValueError(mode_kind)
     except Exception as e:  # noqa: BLE001
@@ -210,12 +225,19 @@ def whole_copies(seg, expected):
     return len(seg) // n
 
 
+def final_enabled(case, g, i, m):
+    for tg, ti, _name, new, _route in case.get("toggles", []):
+        if tg == g and ti == i:
+            return new
+    return m["enabled"]
+
+
 def lean_request(case):
     from probes import canon_kwargs
 
     groups = []
     for g, ms in case["groups"]:
-        groups.append([g, [[m["name"], m["enabled"], canon_kwargs(m["args"])] for m in (ms or [])]])
+        groups.append([g, [[m["name"], final_enabled(case, g, i, m), canon_kwargs(m["args"])] for i, m in enumerate(ms or [])]])
     return {"groups": groups, "steps": case["steps"], "debug": case["debug"]}
 
 
@@ -231,7 +253,7 @@ def property_predicate(case, impl):
     for step in range(case["steps"]):
         for g in GROUPS:
             for i, m in enumerate(cfg.get(g, [])):
-                if m["enabled"]:
+                if final_enabled(case, g, i, m):
                     expected.append([step, g, i, m["name"], canon_kwargs(m["args"])])
     if "segments" in impl:
         total = 0
@@ -268,6 +290,7 @@ def body(ck: common.Check):
         c = gen_case(rng, groups_subset=[a, b], force_enabled=True)
         c["groups"] = [x for x in c["groups"]]
         c["steps"], c["debug"], c["mode"], c["construction"] = 1, False, "exposure", rng.choice(["python", "yaml"])
+        c["toggles"] = []
         cases.append(("pairs", c))
     for _ in range(n_random):
         cases.append(("random", gen_case(rng)))
@@ -275,7 +298,8 @@ def body(ck: common.Check):
     answers = LeanDriver("C01").batch(reqs)
     for (stream, case), ans in zip(cases, answers):
         impl = run_impl(case)
-        enabled_calls = sum(1 for g, ms in case["groups"] for m in (ms or []) if m["enabled"])
+        enabled_calls = sum(1 for g, ms in case["groups"] for i, m in enumerate(ms or []) if final_enabled(case, g, i, m))
+        ck.count("toggled_after_construction", len(case.get("toggles", [])))
         ck.case(case, nontrivial=enabled_calls >= 2, stream=stream)
         ck.count(f"construction={case['construction']}")
         ck.count(f"debug={case['debug']}")
